@@ -197,9 +197,16 @@ func TestC08(t *testing.T) {
 		st := stack.Get(sc.Cfg)
 		ses := newSession(st, sc.Binary)
 		defer ses.close()
-		cl := ses.client(0)
+		port := 0
+		if sc.Cfg.Shape == "l1l2+batch" {
+			port = rapid.IntRange(0, 1).Draw(t, "port") // the whole pipeline runs on the main or on the batch port
+		}
+		cl := ses.client(port)
 		now := nowUnix()
 		cmds := genPipeline(t, sc, maxLen, now)
+		for i := range cmds {
+			cmds[i].Port = port
+		}
 		model := refmodel.New()
 		exps := make([]refmodel.Expect, len(cmds))
 		var burst []byte
@@ -309,6 +316,9 @@ func TestC08(t *testing.T) {
 		got, err := cl.Do(wire.Cmd{Kind: wire.Version})
 		if err != nil || got.Class != wire.OK || len(got.Problems) > 0 {
 			fail("second sentinel: %v %s", err, got)
+		}
+		if port == 1 {
+			sc.Cfg.Shape = "l1l2+batch@batch" // label only
 		}
 		nt := errThenMore || multiLocked
 		var fp strings.Builder
